@@ -7,24 +7,33 @@ instantiates them with the generated definitions).
 namespace Rare.C10
 open Rare.Expr
 
-/-- The program read from the source in round 4b means `timeStep .cur`. -/
-theorem cacheStepOf_expected {L : Type} (lib : TimeLib L) (emptyTime : Bytes) (static : Bool) (s : Bytes)
+/-- The touches of one evaluation, as a list of indices. -/
+def timeTouchList (constTime static : Bool) (s : Bytes) : List Int :=
+  if timeTouches .cur constTime static s then [-1] else []
+
+/-- The program read from the source (1dba502) means `timeStep .cur` and `timeTouches .cur`. -/
+theorem cacheStepOf_expected {L : Type} (lib : TimeLib L) (emptyTime : Bytes) (constTime static : Bool) (s : Bytes)
     (st : TimeSt L) :
-    cacheStepOf cacheClosureExpected lib emptyTime static s st = some (timeStep .cur lib emptyTime static s st) := by
+    cacheStepOf cacheClosureExpected lib emptyTime constTime static s st
+      = some ((timeStep .cur lib emptyTime static s st).1, (timeStep .cur lib emptyTime static s st).2,
+          timeTouchList constTime static s) := by
   by_cases hs : s = []
   · subst hs
-    simp [cacheStepOf, cacheClosureExpected, execProg, execOp, evalCond, timeStep]
-  · cases static <;>
-    · simp only [cacheStepOf, cacheClosureExpected, execProg, execOp, evalCond, timeStep, hs, CVars.cell]
-      cases hr : st.real with
-      | none =>
-        cases hst : st.static <;> cases hd : lib.detect s <;> by_cases he : s = emptyTime <;>
+    simp [cacheStepOf, cacheClosureExpected, execProg, execOp, evalCond, timeStep, timeTouchList]
+  · by_cases he : s = emptyTime
+    · subst he
+      cases static <;> cases constTime <;>
+      · simp only [cacheStepOf, cacheClosureExpected, execProg, execOp, evalCond, timeStep, hs, CVars.cell,
+          timeTouchList, timeTouches]
+        cases hr : st.real <;> cases hst : st.static <;> cases hd : lib.detect s <;>
+          simp [hr, hst, hd, hs, TimeLib.parseOr] <;>
+          (generalize lib.parse _ _ = o; cases o <;> simp)
+    · cases static <;> cases constTime <;>
+      · simp only [cacheStepOf, cacheClosureExpected, execProg, execOp, evalCond, timeStep, hs, CVars.cell,
+          timeTouchList, timeTouches]
+        cases hr : st.real <;> cases hst : st.static <;> cases hd : lib.detect s <;>
           simp [hr, hst, hd, he, hs, TimeLib.parseOr] <;>
-          (first | (subst he; cases hp : lib.parse _ s <;> simp [hp]) | (cases hp : lib.parse _ s <;> simp [hp]))
-      | some l =>
-        cases hst : st.static <;> cases hd : lib.detect s <;> by_cases he : s = emptyTime <;>
-          simp [hr, hst, hd, he, hs, TimeLib.parseOr] <;>
-          (first | (subst he; cases hp : lib.parse _ s <;> simp [hp]) | (cases hp : lib.parse _ s <;> simp [hp]))
+          (generalize lib.parse _ _ = o; cases o <;> simp)
 
 /-- `Comp.probe` is `EvalStaticStage` with a monitor that counts every look-up and answers "". -/
 theorem runMonitor_probeN {α : Type} (c : Comp α) (n : Nat) :
